@@ -57,4 +57,30 @@ def execute {σ ε : Type} (setup : Call → σ → Except ε σ) (callback : By
 /-- all setup calls a load attempts when nothing fails, in order -/
 def allCalls (blocks : List Block) (dirs : List Bytes) : List Call := dirs.flatMap fun d => callsFor d blocks
 
+
+/-! ### a recording instance (what the probe of stream c11.exec does) -/
+
+/-- what a load can be seen doing -/
+inductive Ev where
+  | setup (c : Call)
+  | callback (dir : Bytes)
+deriving Repr, DecidableEq
+
+def Ev.isSetup : Ev → Bool
+  | .setup _ => true
+  | .callback _ => false
+
+/-- a setup function that records its call and fails when `fails` says so; the error carries the trace -/
+def recSetup (fails : Call → Bool) (c : Call) (tr : List Ev) : Except (List Ev) (List Ev) :=
+  if fails c then .error (tr ++ [.setup c]) else .ok (tr ++ [.setup c])
+
+/-- parsing callbacks registered after the directives `cbs`; the one after `failDir` fails -/
+def recCallback (cbs : List Bytes) (failDir : Option Bytes) (dir : Bytes) (tr : List Ev) : Except (List Ev) (List Ev) :=
+  if cbs.contains dir then
+    (if failDir == some dir then .error (tr ++ [.callback dir]) else .ok (tr ++ [.callback dir]))
+  else .ok tr
+
+/-- the trace of a load, whether it succeeded or failed -/
+def traceOf (r : Except (List Ev) (List Ev)) : List Ev := match r with | .ok t => t | .error t => t
+
 end Casket.Exec
